@@ -80,7 +80,8 @@ def fam_at(cls, arity, label, bounded, number):
                 emit("number-accepted=>at-most-one-variable", ["C14"], sym.card(vs) <= 1,
                      extra=[sym.card(vs) >= 0])
                 if len(pts) != 1:
-                    emit("one-point-built", ["C01"], z3.BoolVal(False), info=f"{len(pts)} points")
+                    emit("one-point-built", ["C01", "C14", "C17"], z3.BoolVal(False),
+                         info=f"{len(pts)} points; outcome {res.outcome[0]} {H.exc_kind(res.outcome[1]) if res.outcome[0] == 'raise' else ''}")
                     return
                 pt = pts[0]
                 # the point maps the single variable (if any) to the number
